@@ -160,6 +160,13 @@ pub fn run_histories<S>(
             report.sample(json!({"choices": vectors[i], "history": e.rendered, "outcome": e.outcome}));
           }
           for (prop, class, what) in e.violations {
+            // an update() that fails on a valid chain leaves the index behind the chain, so
+            // the suite's property cannot hold for this history either
+            let (prop, class) = if prop == "C16" && class.starts_with("update/") && spec.property != "C16" {
+              (spec.property.to_string(), format!("index-stuck/{class}"))
+            } else {
+              (prop, class)
+            };
             if prop == spec.property {
               report.violation(
                 class,
